@@ -22,6 +22,7 @@ import (
 	"runtime"
 	"strings"
 	"sync"
+	"time"
 
 	"github.com/ipfs/go-cid"
 	carv2 "github.com/ipld/go-car/v2"
@@ -47,6 +48,7 @@ type memFile struct {
 	log   *[]wop
 	label *string
 	fail  func(op *wop) (persist int, err error) // fault injection (C16); nil = none
+	slow  bool                                   // C08: a write takes its time before it lands (a disk, a network file)
 }
 
 func (m *memFile) ReadAt(p []byte, off int64) (int, error) {
@@ -70,6 +72,10 @@ func (m *memFile) apply(off int64, p []byte) {
 }
 
 func (m *memFile) WriteAt(p []byte, off int64) (int, error) {
+	if m.slow {
+		runtime.Gosched()
+		time.Sleep(30 * time.Microsecond)
+	}
 	m.mu.Lock()
 	defer m.mu.Unlock()
 	op := wop{Kind: "write", Off: off, Data: append([]byte{}, p...)}
@@ -461,7 +467,7 @@ func (s *crSession) evalCrash(sid, i, k int, dir string) crObs {
 	} else {
 		probe := append([]*ABlock{}, alphabet...)
 		for _, id := range o.Put { // blocks of the session that are not part of the TLA+ alphabet (synthetic ones)
-			if b := alphaByID[id]; b != nil && len(id) > 0 && id[0] == 'g' {
+			if b := alphaByID[id]; b != nil && len(id) > 0 && (id[0] == 'g' || id[0] == 't') {
 				probe = append(probe, b)
 			}
 		}
@@ -648,8 +654,32 @@ func manyBlocks(n int) []string {
 	return ids
 }
 
+// sizedBlock registers a synthetic sha2-256 block of n bytes without a zero byte among them.
+func sizedBlock(n int) string {
+	id := fmt.Sprintf("t%d", n)
+	if _, ok := alphaByID[id]; !ok {
+		data := bytes.Repeat([]byte{0x5a}, n)
+		copy(data, fmt.Sprintf("sized %d ", n))
+		h, _ := mh.Sum(data, mh.SHA2_256, -1)
+		c := cid.NewCidV1(cid.Raw, h)
+		b := &ABlock{ID: id, Cid: c, Data: data, DataI: "x" + id, Valid: true, Ver: 1, Codec: cid.Raw, HCode: mh.SHA2_256, DLen: 32}
+		alphaByID[id] = b
+		if _, ok := alphaByCid[c.KeyString()]; !ok {
+			alphaByCid[c.KeyString()] = b
+		}
+		dataByID["x"+id] = data
+	}
+	return id
+}
+
+// A payload whose size, reduced modulo 256, points at a zero byte of the payload itself: with the one root b1 the
+// header is 59 bytes and its byte 13 is the 0x00 multibase prefix of the root link; 59 + (37+91) + (37+45) = 269 = 256+13.
+// A DataSize field torn after its first byte then names a "payload end" that is followed by a zero byte.
+func nullAtLowByte() []string { return []string{"b13", sizedBlock(45)} }
+
 func crashShapes(thorough bool) []crShape {
 	sh := []crShape{
+		{"datasize-low-byte-on-null", []crPhase{{false, nullAtLowByte(), true, false, 0}}},
 		// an index of more than 1 KiB: cut between index and header, its first bytes read as one long section
 		{"thirty-blocks", []crPhase{{false, manyBlocks(30), true, false, 0}}},
 		{"put2-finalize", []crPhase{{false, []string{"b1", "b4"}, true, false, 0}}},
